@@ -7,7 +7,7 @@ TEMPLATE = '''
 #[cfg(kani)]
 #[allow(unused, dead_code, non_snake_case, clippy::all)]
 mod verif_kani {
-    include!("/verif/kani/incrate/%s.rs");
+    include!("/verif/build/kani-gen/%s.harness.rs");
 }
 '''
 def install(path, hook):
